@@ -2,16 +2,26 @@ import os
 from checks.generic import standard
 
 def run(ctx):
+    # a broken obligation without a canary: the escalated search is bounded (the first run already renders every
+    # page in its variants with the wrapper family and the stored canaries)
+    os.environ.setdefault("VERIF_ESCALATION_S", "240")
+    # an escalated run (thorough volume under a wall-clock limit) bounds its generator so that it ends with a verdict:
+    # the focus stage and the dictionary probes first, route loops stop starting new routes after the budget
+    henv = {"VERIF_C18_BUDGET_S": os.environ.get("VERIF_C18_BUDGET_S", "120")} if os.environ.get("VERIF_ESCALATED") else None
     return standard(ctx,
         props=[("Props.C18", ["c18_escape_safe", "c18_hidden_input", "c18_old_input_refuted", "c18_escaped_fields_inert", "c18_document_no_raw", "c18_page_fields_inert", "c18_typed_failure_refuted", "c18_raw_field_refuted", "c18_field_contexts_safe", "c18_quoted_value", "c18_unquoted_value",
-                                 "c18_hand_attr_quoted_inert", "c18_hand_attr_unquoted_blankfree", "c18_hand_attr_unquoted_refuted"])],
-        harness=("TestVerif_C18", ["kmd/common.go", "kmd/creds.go", "kmd/c18.go", "kmd/c18b.go", os.path.join(ctx.work, "gen", "c18_admin_gen.go")]),
+                                 "c18_hand_attr_quoted_inert", "c18_hand_attr_unquoted_blankfree", "c18_hand_attr_unquoted_refuted",
+                                 "c18_stored_fields_inert", "c18_stored_raw_refuted", "c18_part_quoted_inert", "c18_part_unquoted_refuted", "c18_email_wrapper_reaches_part"])],
+        harness=("TestVerif_C18", ["kmd/common.go", "kmd/creds.go", "kmd/c18.go", "kmd/c18b.go", "kmd/c18c.go", "kmd/vdevice.go", os.path.join(ctx.work, "gen", "c18_admin_gen.go")]),
         obl=("Obl_C18.v", ["c18_raw_sinks", "c18_login_input_escaped", "c18_direct_writes", "c18_templates_html", "c18_text_templates_offline", "c18_html_typed_writers", "c18_field_contexts", "c18_handbuilt_quoting", "c18_admin_routes_listed"]),
         cases=("CasesC18.v", [("c18_mismatches", "VALUE attribute of the hidden INPUT in served pages = html_escape(ensureHTMLSafeLoginDestination(dest))"),
                              ("c18_failure_mismatches", "writeFailureResponse = failure_response of the model: declared type, body bytes, rendered-as-document verdict", "CasesC18f.idx"),
                              ("c18_escaper_mismatches", "html/template's rendering of a field in text / quoted-attribute / unquoted-attribute context = render_field of the model", "CasesC18e.idx"),
-                             ("c18_attr_mismatches", "the raw attribute value an HTML tokenizer reads (attr_read of the model) is the whole rendered field: hidden INPUT, second-factor pages with nested canaries, html/template quoted / unquoted renderings", "CasesC18a.idx")], "CasesC18.idx"),
-        violating=[("c18_violating", "request-text-ends-attribute-value", "CasesC18a.idx")],
+                             ("c18_attr_mismatches", "the raw attribute value an HTML tokenizer reads (attr_read of the model) is the whole rendered field: hidden INPUT, second-factor pages with nested canaries, html/template quoted / unquoted renderings", "CasesC18a.idx"),
+                             ("c18_part_mismatches", "wrapped probes: wherever a rendering of the inner payload stands inside an attribute value of a served page, the value the tokenizer reads does not end inside it (c18_part_quoted_inert, c18_quoted_value, c18_unquoted_value)", "CasesC18p.idx")], "CasesC18.idx"),
+        env=henv,
+        violating=[("c18_violating", "request-text-ends-attribute-value", "CasesC18a.idx"),
+                   ("c18_part_violating", "request-text-part-ends-attribute-value", "CasesC18p.idx")],
         trusted=["html/template: that it recognises the context of a field as tools/extract/c18_contexts.go does (the escapers of the text, quoted and unquoted attribute contexts themselves are modelled and compared byte for byte); its URL filter/normaliser and the script/style/CSS escapers (no field of the current templates needs them)",
                  "golang.org/x/net/html tokenizer as the HTML5 parser of the oracle",
                  "tools/extract: table of conversions to template.HTML and friends"],
